@@ -330,3 +330,86 @@ theorem form_roundtrip_fresh (t : FormTree) (hok : formOk Tables.current [] t = 
   form_roundtrip_total _ _ tablesOK_current fresh_live fresh_quiet t hok
 
 end Flatland.C12.Proofs
+
+namespace Flatland.C12.Proofs
+open Flatland.Markup Flatland.C12 Flatland.C19.Proofs
+open Flatland.Flat (FNode joinSep namePath flattenNode)
+
+/-! ### against `flatten()` of the flat model -/
+
+/-- THE FORM'S PAIRS ARE THE ELEMENT'S OWN FLAT PAIRS: what `flatten()` emits for the tree (flat
+    model, separator `_`) is, as a multiset, `formPairs` plus one pair for every Boolean whose box
+    is unchecked -/
+theorem formPairs_flatten (t : FormTree) :
+    (flattenNode usep (embed t)).Perm (formPairs [] t ++ uncheckedPairs [] t) := by
+  rw [Flatland.Flat.flattenNode_eq]
+  exact formPairs_flattenAt t []
+
+mutual
+theorem unchecked_empty : ∀ (t : FormTree) (pre : List (Option Str)), boolsCanonical t = true →
+    ∀ x ∈ uncheckedPairs pre t, x.2 = []
+  | .text .., _, _, x, hx => by simp [uncheckedPairs] at hx
+  | .array .., _, _, x, hx => by simp [uncheckedPairs] at hx
+  | .joined .., _, _, x, hx => by simp [uncheckedPairs] at hx
+  | .bool n tru u ex, pre, hc, x, hx => by
+    simp only [uncheckedPairs] at hx
+    simp only [boolsCanonical, Bool.or_eq_true, beq_iff_eq, List.isEmpty_iff] at hc
+    split at hx
+    · simp at hx
+    · rename_i hne
+      simp only [List.mem_singleton] at hx
+      subst hx
+      rcases hc with h | h
+      · exact absurd h.symm hne
+      · exact h
+  | .dict n fields, pre, hc, x, hx => by
+    simp only [uncheckedPairs] at hx
+    simp only [boolsCanonical] at hc
+    exact uncheckedFields_empty fields (pre ++ [n]) hc x hx
+  | .list n members, pre, hc, x, hx => by
+    simp only [uncheckedPairs] at hx
+    simp only [boolsCanonical] at hc
+    exact uncheckedSlots_empty members (pre ++ [n]) 0 hc x hx
+theorem uncheckedFields_empty : ∀ (ts : List FormTree) (pre : List (Option Str)), allCanonical ts = true →
+    ∀ x ∈ uncheckedFields pre ts, x.2 = []
+  | [], _, _, x, hx => by simp [uncheckedFields] at hx
+  | t :: ts, pre, hc, x, hx => by
+    simp only [allCanonical, Bool.and_eq_true] at hc
+    simp only [uncheckedFields, List.mem_append] at hx
+    rcases hx with h | h
+    · exact unchecked_empty t pre hc.1 x h
+    · exact uncheckedFields_empty ts pre hc.2 x h
+theorem uncheckedSlots_empty : ∀ (ts : List FormTree) (pre : List (Option Str)) (i : Nat), allCanonical ts = true →
+    ∀ x ∈ uncheckedSlots pre i ts, x.2 = []
+  | [], _, _, _, x, hx => by simp [uncheckedSlots] at hx
+  | t :: ts, pre, i, hc, x, hx => by
+    simp only [allCanonical, Bool.and_eq_true] at hc
+    simp only [uncheckedSlots, List.mem_append] at hx
+    rcases hx with h | h
+    · exact unchecked_empty t _ hc.1 x h
+    · exact uncheckedSlots_empty ts pre (i + 1) hc.2 x h
+end
+
+/-- WHAT THE BROWSER POSTS vs `flatten()`: the posted pairs together with the pairs of the unchecked
+    Boolean boxes are exactly (as a multiset) the element's flat pairs; when every Boolean shows
+    its true text or `''`, the pairs a form drops all have the value `''` -/
+theorem form_posts_flatten (T : Tables) (ctx : Ctx) (hT : TablesOK T) (hL : Live T ctx) (t : FormTree)
+    (hok : formOk T [] t = true) (ps : List Pair)
+    (h : browserPost (seenOf T ctx) (renderForm [] t) = .ok ps) :
+    (flattenNode usep (embed t)).Perm (ps ++ uncheckedPairs [] t) ∧
+    (boolsCanonical t = true → ∀ x ∈ uncheckedPairs [] t, x.2 = []) := by
+  rw [form_roundtrip T ctx hT hL t hok ps h]
+  exact ⟨formPairs_flatten t, unchecked_empty t []⟩
+
+/-- every posted name is the separator-join of the names on the path to a flattenable element of
+    the tree (list members by index), and the posted value is that element's text (C07 `keys_are_paths`) -/
+theorem posted_keys_are_paths (T : Tables) (ctx : Ctx) (hT : TablesOK T) (hL : Live T ctx) (t : FormTree)
+    (hok : formOk T [] t = true) (ps : List Pair)
+    (h : browserPost (seenOf T ctx) (renderForm [] t) = .ok ps) (x : Pair) (hx : x ∈ ps) :
+    ∃ p' n', Flatland.Flat.Proofs.Below [] (embed t) p' n' ∧ n'.fl = true ∧
+      x = (joinSep usep (namePath p' n'), n'.u) := by
+  have hperm := (form_posts_flatten T ctx hT hL t hok ps h).1
+  exact Flatland.Flat.Proofs.keys_are_paths usep (embed t) x
+    (hperm.mem_iff.mpr (List.mem_append.mpr (Or.inl hx)))
+
+end Flatland.C12.Proofs
